@@ -134,6 +134,11 @@ int main(int argc, char** argv){
         { TgtLeaves<Tree> v{tree}; checkStored(rep, key, v, conf, tpos, "target tree after rebuild"); }
         { SrcLeaves<Tree> v{tree}; checkStored(rep, key, v, conf, pos, "source tree after rebuild"); }
 #endif
+        {   // bulk export of both trees (after the rebuild when there is one): entry i = the values inserted at position i, bit for bit
+            auto ds = tree.getAllParticlesDataSource(); bool same = true; for(long i = 0; same && i < N; ++i) for(long v = 0; v < NbData; ++v) if(std::memcmp(&ds[i][v], &pos[i][v], sizeof(Data)) != 0) same = false;
+            rep.ok("Export", key, same, "getAllParticlesDataSource does not return the inserted values");
+            auto dt = tree.getAllParticlesDataTarget(); same = true; for(size_t i = 0; same && i < tpos.size(); ++i) for(long v = 0; v < NbData; ++v) if(std::memcmp(&dt[i][v], &tpos[i][v], sizeof(Data)) != 0) same = false;
+            rep.ok("Export", key, same, "getAllParticlesDataTarget does not return the inserted values"); }
 #else
         using Tree = TbfTree<Real, Data, NbData, long, NRHS, Acc, Acc, Space>;
         Tree tree(conf, pos, bs, ogpp);
@@ -173,6 +178,8 @@ int main(int argc, char** argv){
         tree.rebuild();
         checkStored(rep, key, tree, conf, pos, "tree after rebuild");
         checkResults(1, "results preserved by rebuild");
+        { auto d = tree.getAllParticlesData(); bool same = true; for(long i = 0; same && i < N; ++i) for(long v = 0; v < NbData; ++v) if(std::memcmp(&d[i][v], &pos[i][v], sizeof(Data)) != 0) same = false;
+          rep.ok("Export", key, same, "getAllParticlesData after rebuild does not return the (edited) inserted values bit for bit"); }
         tree.applyToAllCells([&](const long, auto&&, auto mp, auto lo){ rep.ok("RebuildResets", key, (*mp).get().cnt == 0 && (*lo).get().cnt == 0, "expansions not reset by rebuild"); });
         fullPass();
         checkResults(2, "after rebuild + second execution");
